@@ -217,8 +217,28 @@ func checkReparse(c *corr.Ctx, in Input, d *description.Session, origin string) 
 		return
 	}
 	if cl, det := diffDesc(d, pr.desc); cl != "" {
-		viol("re-parsed to the same value: "+cl, "reparse-differs:"+clauseKey(cl)+":"+detailKind(det), det+fmt.Sprintf(" (re-marshalled text %q)", mr.text))
+		viol("re-parsed to the same value: "+cl, "reparse-differs:"+clauseKey(cl)+":"+detailKind(det)+annexBShape(d), det+fmt.Sprintf(" (re-marshalled text %q)", mr.text))
 	}
+}
+
+// annexBShape marks accepted descriptions in which a parameter set still starts with an Annex-B start
+// code after the parser stripped one (input with a doubled start code): a separate, known failure shape.
+func annexBShape(d *description.Session) string {
+	for _, m := range d.Medias {
+		for _, f := range m.Formats {
+			switch x := f.(type) {
+			case *format.H264:
+				if hasAnnexB(x.SPS) || hasAnnexB(x.PPS) {
+					return ":annexb-remains"
+				}
+			case *format.H265:
+				if hasAnnexB(x.VPS) || hasAnnexB(x.SPS) || hasAnnexB(x.PPS) {
+					return ":annexb-remains"
+				}
+			}
+		}
+	}
+	return ""
 }
 
 // errClass keeps the stable leading words of an error message (no values) for violation keys.
